@@ -1,10 +1,10 @@
 (* ===== P3.v ===== *)
-From Coq Require Import List Arith Bool Lia Permutation.
+From Coq Require Import List Arith Bool Lia Permutation NArith.
 Import ListNotations.
-Require Import Scope2 P1 P2.
+Require Import Scope ScopeP1 ScopeP2.
 
 Section P.
-Variable isnum : nat -> bool.
+Variable isnum : fid_t -> bool.
 Notation required := (required isnum).
 Notation covers := (covers isnum).
 Notation count := (count isnum).
@@ -49,13 +49,13 @@ Proof.
 Qed.
 
 Lemma wf_all_remove l e : wf_all l -> wf_all (remove_term l e).
-Proof. unfold Scope2.remove_term, P1.wf_all. rewrite !Forall_forall. intros H x Hx. apply filter_In in Hx as [Hx _]. auto. Qed.
+Proof. unfold Scope.remove_term, ScopeP1.wf_all. rewrite !Forall_forall. intros H x Hx. apply filter_In in Hx as [Hx _]. auto. Qed.
 Lemma wf_all_add l M : wf_all l -> wf M -> wf_all (add_term l M).
-Proof. unfold add_term, P1.wf_all. intros Hl HM. destruct (mem_st M l); auto. apply Forall_app. split; auto. Qed.
+Proof. unfold add_term, ScopeP1.wf_all. intros Hl HM. destruct (mem_st M l); auto. apply Forall_app. split; auto. Qed.
 
 Lemma insert_perm t l : Permutation (insert_by_len t l) (t :: l).
 Proof.
-  induction l as [|x l IH]; cbn; [reflexivity|]. destruct (length x <=? length t); [|reflexivity].
+  induction l as [|x l IH]; cbn [insert_by_len]; [reflexivity|]. destruct (length x <? length t); [|reflexivity].
   rewrite IH. apply perm_swap.
 Qed.
 Lemma sort_perm l : Permutation (sort_by_len l) l.
@@ -84,7 +84,7 @@ Proof.
     + assert (Hs : sstep rec terms st = rec (add_term (remove_term terms e) (merge_into st f))) by (unfold sstep; rewrite Efm; reflexivity).
       rewrite Hs. clear Hs.
       destruct (find_merge_spec isnum st terms e f Hwst Hwt Efm) as (Hin & Hfr & Hfst & Hnfe & He).
-      destruct (covers_merge isnum st e f) with (c := @nil nat) as [_ _]; auto.
+      destruct (covers_merge isnum st e f) with (c := @nil fid_t) as [_ _]; auto.
       set (M := merge_into st f). set (L' := add_term (remove_term terms e) M).
       assert (Hcm : forall c, covers M c = covers st c || covers e c /\ covers st c && covers e c = false)
         by (intros c; apply covers_merge; auto).
@@ -132,7 +132,7 @@ Proof.
   pose proof (sort_perm L) as Hp.
   destruct (fold_ok fuel (simplify fuel) IH (sort_by_len L) []) as (H1 & H2 & H3).
   - constructor.
-  - unfold P1.wf_all. eapply Permutation_Forall; [apply Permutation_sym, Hp | exact Hw].
+  - unfold ScopeP1.wf_all. eapply Permutation_Forall; [apply Permutation_sym, Hp | exact Hw].
   - intros c. rewrite (count_perm isnum c _ _ Hp), count_nil. apply Hb.
   - rewrite (nred_perm _ _ Hp). unfold nred at 1. cbn [fold_right]. lia.
   - split; [|split; [exact H2 | rewrite (nred_perm _ _ Hp) in H3; unfold nred at 2 in H3; cbn [fold_right] in H3; lia]].
